@@ -13,12 +13,12 @@ import operator
 from fractions import Fraction
 
 from .. import env
-from ..util import call
+from ..util import call, StepBudget, StepBudgetExceeded
 from ..report import short
 from ..snapshot import snapshot, first_diff
 
 glom = env.bind()
-from glom import T, Spec, PathAccessError, GlomError, glom as G  # noqa: E402
+from glom import T, Path, Spec, PathAccessError, GlomError, glom as G  # noqa: E402
 
 META = {
     'level': 'exploration',
@@ -442,6 +442,27 @@ def arg_kinds(e):
     return tuple(out)
 
 
+import copy as _copy
+import pickle as _pickle
+import random as _random
+_COPY_RNG = _random.Random(20261002)
+_BUDGET = StepBudget(300000)
+
+
+def _copy_expr(expr, how):
+    if how == 'copy':
+        return _copy.copy(expr)
+    if how == 'deepcopy':
+        return _copy.deepcopy(expr)
+    if how == 'pickle':
+        return _pickle.loads(_pickle.dumps(expr))
+    if how == 'path-slice':
+        p = Path(expr)
+        q = p[:len(p)]
+        return q.path_t
+    raise AssertionError(how)
+
+
 def check_expr(col, e, build, origin):
     t_glom, t_ref = build(), build()
     try:
@@ -463,8 +484,24 @@ def check_expr(col, e, build, origin):
     def tsnap():
         return tuple((k, snapshot(v)) for k, v in sorted(t_glom.__dict__.items()) if k != 'log')
     snap = tsnap()
-    got = call(G, t_glom, expr)
+    # a T expression is a value: a copy of it (copy.copy, copy.deepcopy, a pickle round trip, the expression sliced out of a
+    # Path) replays the same operations.  A fifth of the cases evaluate such a copy instead of the object that was built
+    how = 'built'
+    if _COPY_RNG.random() < 0.2:
+        how = _COPY_RNG.choice(['copy', 'deepcopy', 'pickle', 'path-slice'])
+        made = call(_copy_expr, expr, how)
+        if made.ok:
+            col.count('copies_evaluated')
+            expr = made.value
+        else:
+            how = 'built'      # (lambdas / local classes among the arguments cannot be pickled or deep-copied: not a property of T)
+    got = _BUDGET.call(G, t_glom, expr)
     col.count('glom_evaluations')
+    if not got.ok and isinstance(got.exc, StepBudgetExceeded):
+        col.violation('C02/evaluation-does-not-terminate:' + _last_kind(e.kinds()),
+                      '%s (%s) on %s: %s, the direct Python evaluation is a handful of operations'
+                      % (repr(expr)[:300], how, short(t_ref), got.exc), {'expr': repr(expr)[:300]})
+        return
     if tsnap() != snap:
         col.violation('C02/evaluation-mutates-the-target:' + _last_kind(kinds),
                       '%s changed its target: %s' % (rendering, first_diff(snap, tsnap())), {'expr': rendering})
